@@ -63,7 +63,15 @@ impl InstructionSet for Arm6M
 	
 	fn assemble(&self, ctx: &mut Context, line: u32, col: u32, name: &str, args: Vec<Argument>) -> Result<(), ErrorLevel>
 	{
-		let addr = ctx.active().unwrap().curr_addr();
+		let active = ctx.active().unwrap();
+		if !active.has_remaining(2)
+		{
+			// no instruction is shorter; a full segment has no address left for a statement (`curr_addr` saturates at the top)
+			let source = Box::new(AsmError::Write(SegmentError::Overflow{need: 2, have: active.remaining()}));
+			ctx.push_error(Positioned{line, col, value: InstrErrorKind::Assemble(source)});
+			return Err(ErrorLevel::Fatal);
+		}
+		let addr = active.curr_addr();
 		match ArmInstr::new(ctx, line, col, name, addr, args)
 		{
 			Ok(mut instr) =>
